@@ -36,11 +36,20 @@ def run_check(prop, repo, only=None, scale=None, tier="quick", seed=None, timeou
     env = dict(os.environ, VERIF_REPO=repo)
     if seed is not None:
         env["VERIF_SEED"] = str(seed)
+    import signal
+
+    # own process group: on a timeout the worker pool is killed with the parent (no orphans keeping cores busy)
+    proc = subprocess.Popen(cmd, cwd=VERIF, env=env, stdout=subprocess.PIPE, stderr=subprocess.STDOUT, text=True, start_new_session=True)
     try:
-        p = subprocess.run(cmd, cwd=VERIF, env=env, capture_output=True, text=True, timeout=timeout)
+        out, _ = proc.communicate(timeout=timeout)
     except subprocess.TimeoutExpired:
+        try:
+            os.killpg(proc.pid, signal.SIGKILL)
+        except ProcessLookupError:
+            pass
+        proc.communicate()
         return 124, "timeout"
-    return p.returncode, p.stdout + p.stderr
+    return proc.returncode, out
 
 
 def apply_sub(repo, file, old, new, count=1):
